@@ -356,35 +356,63 @@ __CPROVER_ensures(__CPROVER_return_value == TRUE && __CPROVER_was_freed(__CPROVE
 
 /* from_ptr / from_str: the new text is a fresh terminated copy of the argument's length; the argument is
  * not assigned; the components are whatever the parser stored (each absent or a fresh owned str) */
-#define URL_BUILT(u) (URL_CLS(u) == SPIF_CLASS_VAR(url) && NSTR(u)->len >= 0 && (size_t) NSTR(u)->len == vg_n1 && \
-    NSTR(u)->size == NSTR(u)->len + 1 && __CPROVER_is_fresh(NSTR(u)->s, (size_t) NSTR(u)->size) && NSTR(u)->s[NSTR(u)->len] == 0)
+#define URL_BUILT(u, src) (URL_CLS(u) == SPIF_CLASS_VAR(url) && NSTR(u)->len >= 0 && (size_t) NSTR(u)->len == vg_n1 && \
+    NSTR(u)->size == NSTR(u)->len + 1 && __CPROVER_is_fresh(NSTR(u)->s, (size_t) NSTR(u)->size) && NSTR(u)->s[NSTR(u)->len] == 0 && \
+    (!(vg_k < vg_n1) || NSTR(u)->s[vg_k] == ((const char *) (src))[vg_k]))
 #define URL_BUILT_COMPS(u) (NSTR_OPT((u)->proto) && NSTR_OPT((u)->user) && NSTR_OPT((u)->passwd) && NSTR_OPT((u)->host) && \
     NSTR_OPT((u)->port) && NSTR_OPT((u)->path) && NSTR_OPT((u)->query))
 
 spif_bool_t spif_url_init_from_ptr(spif_url_t self, spif_charptr_t other)
 __CPROVER_requires(__CPROVER_is_fresh(self, sizeof(spif_const_url_t)) && URL_ARG_TEXT(other))
 __CPROVER_assigns(__CPROVER_object_whole(self), vg_txt, vg_txt_len, vg_buf, vg_buf_len, VG_LOOKUP_ASSIGNS)
-__CPROVER_ensures(__CPROVER_return_value == TRUE && URL_BUILT(self))
+__CPROVER_ensures(__CPROVER_return_value == TRUE && URL_BUILT(self, other))
 __CPROVER_ensures(URL_BUILT_COMPS(self))
 ;
 spif_bool_t spif_url_init_from_str(spif_url_t self, spif_str_t other)
 __CPROVER_requires(__CPROVER_is_fresh(self, sizeof(spif_const_url_t)) && __CPROVER_is_fresh(other, sizeof(spif_const_str_t)))
 __CPROVER_requires(URL_ARG_TEXT(other->s) && other->len >= 0 && (size_t) other->len == vg_n1 && other->size > other->len)
 __CPROVER_assigns(__CPROVER_object_whole(self), vg_txt, vg_txt_len, vg_buf, vg_buf_len, VG_LOOKUP_ASSIGNS)
-__CPROVER_ensures(__CPROVER_return_value == TRUE && URL_BUILT(self))
+__CPROVER_ensures(__CPROVER_return_value == TRUE && URL_BUILT(self, other->s))
 __CPROVER_ensures(URL_BUILT_COMPS(self))
 ;
 spif_url_t spif_url_new_from_ptr(spif_charptr_t other)
 __CPROVER_requires(URL_ARG_TEXT(other))
 __CPROVER_assigns(vg_txt, vg_txt_len, vg_buf, vg_buf_len, VG_LOOKUP_ASSIGNS)
-__CPROVER_ensures(__CPROVER_is_fresh(__CPROVER_return_value, sizeof(spif_const_url_t)) && URL_BUILT(__CPROVER_return_value))
+__CPROVER_ensures(__CPROVER_is_fresh(__CPROVER_return_value, sizeof(spif_const_url_t)) && URL_BUILT(__CPROVER_return_value, other))
 __CPROVER_ensures(URL_BUILT_COMPS(__CPROVER_return_value))
 ;
 spif_url_t spif_url_new_from_str(spif_str_t other)
 __CPROVER_requires(__CPROVER_is_fresh(other, sizeof(spif_const_str_t)))
 __CPROVER_requires(URL_ARG_TEXT(other->s) && other->len >= 0 && (size_t) other->len == vg_n1 && other->size > other->len)
 __CPROVER_assigns(vg_txt, vg_txt_len, vg_buf, vg_buf_len, VG_LOOKUP_ASSIGNS)
-__CPROVER_ensures(__CPROVER_is_fresh(__CPROVER_return_value, sizeof(spif_const_url_t)) && URL_BUILT(__CPROVER_return_value))
+__CPROVER_ensures(__CPROVER_is_fresh(__CPROVER_return_value, sizeof(spif_const_url_t)) && URL_BUILT(__CPROVER_return_value, other->s))
 __CPROVER_ensures(URL_BUILT_COMPS(__CPROVER_return_value))
+;
+/* ---- C05: dup / comp / type -------------------------------------------------------------------- */
+/* dup: a NEW object with a NEW text buffer holding the same text (length, terminator, byte vg_k) and
+ * components that are each absent or NEW owned strings; the original is not assigned.  (The components
+ * are produced by re-parsing the text: see finding C05-url-dup-stale in known_findings/C05.net.json.) */
+spif_url_t spif_url_dup(spif_url_t self)
+__CPROVER_requires(__CPROVER_is_fresh(self, sizeof(spif_const_url_t)))
+__CPROVER_requires(URL_ARG_TEXT(NSTR(self)->s) && NSTR(self)->len >= 0 && (size_t) NSTR(self)->len == vg_n1 && NSTR(self)->size > NSTR(self)->len)
+__CPROVER_assigns(vg_txt, vg_txt_len, vg_buf, vg_buf_len, VG_LOOKUP_ASSIGNS)
+__CPROVER_ensures(__CPROVER_is_fresh(__CPROVER_return_value, sizeof(spif_const_url_t)) && URL_BUILT(__CPROVER_return_value, NSTR(self)->s))
+__CPROVER_ensures(URL_BUILT_COMPS(__CPROVER_return_value))
+;
+/* comp: NULL before every object, otherwise the three-way comparison of the two texts */
+spif_cmp_t spif_url_comp(spif_url_t self, spif_url_t other)
+__CPROVER_requires(self == NULL || (__CPROVER_is_fresh(self, sizeof(spif_const_url_t)) && NSTR(self)->s == NULL))
+__CPROVER_requires(other == NULL || other == self || (__CPROVER_is_fresh(other, sizeof(spif_const_url_t)) && NSTR(other)->s == NULL))
+__CPROVER_assigns()
+__CPROVER_ensures(__CPROVER_return_value == SPIF_CMP_LESS || __CPROVER_return_value == SPIF_CMP_EQUAL || __CPROVER_return_value == SPIF_CMP_GREATER)
+__CPROVER_ensures(!(self == NULL && other == NULL) || __CPROVER_return_value == SPIF_CMP_EQUAL)
+__CPROVER_ensures(!(self == NULL && other != NULL) || __CPROVER_return_value == SPIF_CMP_LESS)
+__CPROVER_ensures(!(self != NULL && other == NULL) || __CPROVER_return_value == SPIF_CMP_GREATER)
+__CPROVER_ensures(!(self != NULL && self == other) || __CPROVER_return_value == SPIF_CMP_EQUAL)
+;
+spif_classname_t spif_url_type(spif_url_t self)
+__CPROVER_requires(__CPROVER_is_fresh(self, sizeof(spif_const_url_t)) && __CPROVER_is_fresh(URL_CLS(self), sizeof(SPIF_CONST_TYPE(class))))
+__CPROVER_assigns()
+__CPROVER_ensures(__CPROVER_return_value == URL_CLS(self)->classname)
 ;
 #endif /* NET_URL_API */
